@@ -209,3 +209,141 @@ T("C16", "twin-guard-mirrored", (EVO, "if abs(term.coefficient.imag) > 1e-9:", "
 T("C16", "twin-angle-reordered", (EVO, "central_gate = RZ(2 * time * term.coefficient.real)(qubit_id)", "central_gate = RZ(term.coefficient.real * time * 2.0)(qubit_id)"))
 T("C16", "twin-shift-rewritten", (EVO, "shift = factor * (np.pi / (4.0 * r))", "shift = factor * np.pi / 4 / r"))
 B("C16", "repeated-step-is-whole-evolution", (EVO, "hamiltonian, time / n_steps, method=\"Trotter\", n_steps=1", "hamiltonian, time, method=\"Trotter\", n_steps=n_steps"), rule="C16-D4")
+
+# ----------------------------------------------------------------------------- C14
+RUN = "api/circuit_runner.py"
+TRK = "runners/trackers.py"
+B("C14", "tracker-bumps-before-inner", (TRK, """        measurements = self.inner_backend.run_batch_and_measure(circuits, n_samples)
+        self._n_circuits_executed += len(circuits)
+        self._n_jobs_executed += 1
+""", """        self._n_circuits_executed += len(circuits)
+        self._n_jobs_executed += 1
+        measurements = self.inner_backend.run_batch_and_measure(circuits, n_samples)
+"""), rule="C14-D2")
+B("C14", "guard-strict-less-than-zero", (RUN, "        if n_samples <= 0:\n            raise ValueError(f\"Number of samples has to be positive, got {n_samples}\")\n        result = self._run_and_measure(circuit, n_samples)\n        self._n_circuits_executed += 1", "        if n_samples < 0:\n            raise ValueError(f\"Number of samples has to be positive, got {n_samples}\")\n        result = self._run_and_measure(circuit, n_samples)\n        self._n_circuits_executed += 1"), rule="C14-D1")
+B("C14", "length-guard-deleted", (RUN, """        if len(samples_per_circuit) != len(circuits_batch):
+            raise ValueError(
+                "Number of samples has to be an integer or a sequence of length "
+                "equal to the length of batch. Length of batch: "
+                f"{len(circuits_batch)}, length of n_samples: "
+                f"{len(samples_per_circuit)}."
+            )
+""", ""), rule="C14-D1")
+B("C14", "positivity-only-for-int", (RUN, "        if any(n <= 0 for n in samples_per_circuit):", "        if isinstance(n_samples, int) and n_samples <= 0:"), rule="C14-D1")
+B("C14", "bump-before-hook", (RUN, """        result = self._run_and_measure(circuit, n_samples)
+        self._n_circuits_executed += 1
+        self._n_jobs_executed += 1
+        return result""", """        self._n_circuits_executed += 1
+        self._n_jobs_executed += 1
+        result = self._run_and_measure(circuit, n_samples)
+        return result"""), rule="C14-D4")
+B("C14", "bump-above-guard", (RUN, """        if n_samples <= 0:
+            raise ValueError(f"Number of samples has to be positive, got {n_samples}")
+        result = self._run_and_measure(circuit, n_samples)
+        self._n_circuits_executed += 1
+        self._n_jobs_executed += 1""", """        self._n_jobs_executed += 1
+        if n_samples <= 0:
+            raise ValueError(f"Number of samples has to be positive, got {n_samples}")
+        result = self._run_and_measure(circuit, n_samples)
+        self._n_circuits_executed += 1"""), rule="C14-D2")
+B("C14", "counter-decrement", (RUN, "        self._n_jobs_executed += 1\n        return result", "        self._n_jobs_executed -= 1\n        return result"), rule="C14-D3")
+B("C14", "simulator-guard-removed", (SIM, """        if n_samples <= 0:
+            raise ValueError(f"Number of samples has to be positive, got {n_samples}")
+        result = self._run_and_measure(circuit, n_samples)
+        return result""", """        result = self._run_and_measure(circuit, n_samples)
+        return result"""), rule="C14-D1")
+B("C14", "jobs-only-for-native", (SIM, """            self._n_jobs_executed += 1
+            if is_supported:
+                self._n_circuits_executed += 1""", """            if is_supported:
+                self._n_jobs_executed += 1
+                self._n_circuits_executed += 1"""), rule="C14-D4")
+B("C14", "tracker-returns-copy", (TRK, "        self.save_raw_data()\n        return measurement\n", "        self.save_raw_data()\n        return Measurements(list(measurement.bitstrings))\n"), rule="C14-D5")
+B("C14", "tracker-records-requested-shots", (TRK, '"number_of_shots": len(measurement.bitstrings),', '"number_of_shots": len(circuit.operations),'), rule="C14-D5")
+B("C14", "tracker-batch-misaligned", (TRK, "        for circuit, measurement in zip(circuits, measurements):", "        for circuit, measurement in zip(circuits, reversed(measurements)):"), rule="C14-D5")
+B("C14", "tracker-distribution-default-shots", (TRK, """        distribution = self.inner_backend.get_measurement_outcome_distribution(
+            circuit, n_samples
+        )""", """        distribution = self.inner_backend.get_measurement_outcome_distribution(
+            circuit, n_samples or 1000
+        )"""), rule="C14-D")
+B("C14", "batch-hook-misaligned", (RUN, "            for circuit, n in zip(batch, samples_per_circuit)", "            for circuit, n in zip(batch, sorted(samples_per_circuit))"), rule="C14-D4")
+B("C14", "counter-written-by-estimation", ("estimation/_estimation.py", "        measurements_list = runner.run_batch_and_measure(circuits, shots_per_circuit)", "        measurements_list = runner.run_batch_and_measure(circuits, shots_per_circuit)\n        runner._n_jobs_executed = 0"), rule="C14-D3")
+T("C14", "twin-guard-less-than-one", (RUN, "        if n_samples <= 0:\n            raise ValueError(f\"Number of samples has to be positive, got {n_samples}\")\n        result = self._run_and_measure(circuit, n_samples)\n        self._n_circuits_executed += 1", "        if n_samples < 1:\n            raise ValueError(f\"Number of samples has to be positive, got {n_samples}\")\n        result = self._run_and_measure(circuit, n_samples)\n        self._n_circuits_executed += 1"))
+T("C14", "twin-guard-not-positive", (RUN, "        if any(n <= 0 for n in samples_per_circuit):", "        if not all(n > 0 for n in samples_per_circuit):"))
+
+# ----------------------------------------------------------------------------- C08
+GENS = "circuits/_generators.py"
+B("C08", "inverse-not-reversed", (CIR, "                    for op in reversed(self.operations)\n                ],", "                    for op in self.operations\n                ],"), rule="C08-D1")
+B("C08", "inverse-keeps-gate", (CIR, "                    op.gate.dagger(*op.qubit_indices)", "                    op.gate(*op.qubit_indices)"), rule="C08-D1")
+B("C08", "inverse-reverses-indices", (CIR, "                    op.gate.dagger(*op.qubit_indices)", "                    op.gate.dagger(*reversed(op.qubit_indices))"), rule="C08-D1")
+B("C08", "inverse-drops-width", (CIR, """                    for op in reversed(self.operations)
+                ],
+                n_qubits=self.n_qubits,
+            )""", """                    for op in reversed(self.operations)
+                ],
+            )"""), rule="C08-D1")
+B("C08", "controlled-drops-width", (CIR, "return Circuit(c_ops, n_qubits=max(self.n_qubits, control_index) + 1)", "return Circuit(c_ops)"), rule="C08-D2")
+B("C08", "controlled-width-not-widened", (CIR, "return Circuit(c_ops, n_qubits=max(self.n_qubits, control_index) + 1)", "return Circuit(c_ops, n_qubits=self.n_qubits)"), rule="C08-D2")
+B("C08", "control-last", (CIR, "new_indices_with_control = (control_index, *new_indices)", "new_indices_with_control = (*new_indices, control_index)"), rule="C08-D2")
+B("C08", "shift-strictly-above", (CIR, "new_indices = (i + 1 if i >= control_index else i for i in op.qubit_indices)", "new_indices = (i + 1 if i > control_index else i for i in op.qubit_indices)"), rule="C08-D2")
+B("C08", "controlled-cached-by-name", (CIR, """        c_ops = []
+        for op in self.operations:
+            controlled_op = op.gate.controlled(1)""", """        c_ops = []
+        cache = {}
+        for op in self.operations:
+            key = (op.gate.name, op.gate.params)
+            if key not in cache:
+                cache[key] = op.gate.controlled(1)
+            controlled_op = cache[key]"""), rule="C08-D2")
+B("C08", "two-controls", (CIR, "controlled_op = op.gate.controlled(1)", "controlled_op = op.gate.controlled(2)"), rule="C08-D2")
+B("C08", "loop-over-raw-collection", (GENS, "        for qubit in unique_qubit_idx:\n            circuit += gate_factory(qubit)", "        for qubit in qubit_indices:\n            circuit += gate_factory(qubit)"), rule="C08-D3")
+B("C08", "ancilla-index-from-extended", (GENS, "qubit_index = circuit.n_qubits + ancilla_qubit_i", "qubit_index = extended_circuit.n_qubits + ancilla_qubit_i"), rule="C08-D3")
+B("C08", "generator-appends-in-place", (GENS, "        for qubit in unique_qubit_idx:\n            circuit += gate_factory(qubit)", "        for qubit in unique_qubit_idx:\n            circuit._operations.append(gate_factory(qubit))"), rule="C08-D3")
+B("C08", "layer-skips-last-qubit", (GENS, "circuit, range(number_of_qubits), gate_factory, parameters", "circuit, range(number_of_qubits - 1), gate_factory, parameters"), rule="C08-D3")
+B("C08", "ancilla-off-by-one-count", (GENS, "for ancilla_qubit_i in range(n_ancilla_qubits):", "for ancilla_qubit_i in range(n_ancilla_qubits + 1):"), rule="C08-D3")
+T("C08", "twin-shift-as-addition-of-bool", (CIR, "new_indices = (i + 1 if i >= control_index else i for i in op.qubit_indices)", "new_indices = (i + int(i >= control_index) for i in op.qubit_indices)"))
+T("C08", "twin-inverse-slice", (CIR, "                    for op in reversed(self.operations)\n                ],", "                    for op in self.operations[::-1]\n                ],"))
+T("C08", "twin-width-max-of-sums", (CIR, "n_qubits=max(self.n_qubits, control_index) + 1", "n_qubits=max(self.n_qubits + 1, control_index + 1)"))
+
+# ----------------------------------------------------------------------------- C18
+DECM = "decompositions/_decomposition.py"
+ORQD = "decompositions/_orquestra_decompositions.py"
+MAT = "circuits/_matrices.py"
+# note: the controlled-U3 phase drop (known finding) is a violation on every variant below as well;
+# the self-test looks at the *rule* that must additionally fire
+B("C18", "all-rules-instead-of-remaining", (DECM, "for decomposed_op in decompose_operation(op, remaining_rules)", "for decomposed_op in decompose_operation(op, decomposition_rules[1:][1:])"), rule="C18-D1")
+B("C18", "first-match-wins", (DECM, """    return [
+        decomposed_op
+        for op in new_operations_to_decompose
+        for decomposed_op in decompose_operation(op, remaining_rules)
+    ]""", """    if current_rule.predicate(operation):
+        return list(new_operations_to_decompose)
+    return [
+        decomposed_op
+        for op in new_operations_to_decompose
+        for decomposed_op in decompose_operation(op, remaining_rules)
+    ]"""), rule="C18-D1")
+B("C18", "non-matching-op-dropped", (DECM, "        else [operation]\n    )", "        else []\n    )"), rule="C18-D1")
+B("C18", "empty-rules-returns-nothing", (DECM, "    if not decomposition_rules:\n        return [operation]", "    if not decomposition_rules:\n        return []"), rule="C18-D1")
+B("C18", "decompose-drops-width", (ORQD, """    return Circuit(
+        decompose_operations(circuit.operations, decomposition_rules),
+        n_qubits=circuit.n_qubits,
+    )""", "    return Circuit(decompose_operations(circuit.operations, decomposition_rules))"), rule="C18-D2")
+B("C18", "production-not-reversed", (ORQD, "        return reversed(gate_operation_decomposition)", "        return gate_operation_decomposition"), rule="C18-D4")
+B("C18", "angles-wrapped-mod-2pi", (ORQD, "        gate_decomposition = [RZ(phi), RY(theta), RZ(lambda_)]", "        gate_decomposition = [RZ(phi % 6.283185307179586), RY(theta), RZ(lambda_)]"), rule="C18-D4")
+B("C18", "phi-lambda-swapped", (ORQD, "        gate_decomposition = [RZ(phi), RY(theta), RZ(lambda_)]", "        gate_decomposition = [RZ(lambda_), RY(theta), RZ(phi)]"), rule="C18-D4")
+B("C18", "single-control-only", (ORQD, "gate.controlled(operation.gate.num_control_qubits)", "gate.controlled(1)"), rule="C18-D4")
+B("C18", "unpack-order-changed", (ORQD, "        theta, phi, lambda_ = operation.params", "        phi, theta, lambda_ = operation.params"), rule="C18-D4")
+T("C18", "twin-compensating-phase-gate", (ORQD, "        return reversed(gate_operation_decomposition)", """        if isinstance(operation.gate, ControlledGate):
+            from ..circuits._builtin_gates import PHASE
+
+            controls = operation.qubit_indices[: operation.gate.num_control_qubits]
+            phase = PHASE((phi + lambda_) / 2)
+            if len(controls) > 1:
+                phase = phase.controlled(len(controls) - 1)
+            gate_operation_decomposition.insert(0, phase(*controls))
+        return reversed(gate_operation_decomposition)"""))
+T("C18", "twin-statement-form-selection", (DECM, """    new_operations_to_decompose = (
+        current_rule.production(operation)
+        if current_rule.predicate(operation)
+        else [operation]
+    )""", """    new_operations_to_decompose = current_rule.production(operation) if current_rule.predicate(operation) else [operation]"""))
